@@ -19,7 +19,7 @@ RULE = (
     "arbitrary: plain and source = all strings <= n over {x,y,<,' ',>} (source also None), all ordered span tuples of "
     "<= 2 spans (empty, touching, nested, overlapping, duplicate, unsorted; 3 spans for |plain| <= 3 in thorough) x 3 modes "
     "x 2 engines; forced: plain 'wxyz' with <= 2 insertions of tags/whitespace at every gap; trees: all element trees with "
-    "<= 2 elements over 4 letters; markers: 6 families of before/after strings with regex/format metacharacters x all forced sources "
+    "<= 2 elements (tags i, b, p and I, em, B) over 4 letters; markers: 6 families of before/after strings with regex/format metacharacters x all forced sources "
     "x all <= 2-span tuples x 3 modes. distinct = distinct (plain, source, spans); non-trivial = >= 1 non-empty span and a "
     "source different from plain, or >= 2 spans."
 )
@@ -83,6 +83,7 @@ def shards(tier, seed):
             out.append({"part": "forced", "plain": plain, "r": r, "n": 8, "kmax": 2 if tier == "quick" else 3})
     for r in range(8):
         out.append({"part": "trees", "r": r, "n": 8, "max_el": 2})
+        out.append({"part": "trees", "r": r, "n": 8, "max_el": 2, "tags": ["I", "em", "B"]})  # style tags in upper case and <em>
     for mi in range(len(HOSTILE_MARKS)):
         out.append({"part": "markers", "mi": mi})
     return out
@@ -157,7 +158,7 @@ def run_shard(sh):
     plain = "wxyz"
     sets = list(annot.span_sets(len(plain), 2))
     seen = set()
-    trees = annot.element_trees(len(plain), ["i", "b", "p"], sh["max_el"])
+    trees = annot.element_trees(len(plain), sh.get("tags") or ["i", "b", "p"], sh["max_el"])
     for tree in itertools.islice(trees, sh["r"], None, sh["n"]):
         source = annot.render_tree(plain, tree)
         if source in seen or annot.wellformed(source) is None:
